@@ -227,7 +227,13 @@ type stringSwitchCase struct {
 	Action int
 }
 
-func asStringSwitch(m map[string]int) stringSwitch {
+// asStringSwitch builds a hash switch over the keys of m. Lexers that scan bytes (scanBytes = true)
+// accumulate the hash byte by byte, all others rune by rune; the optional argument selects the former.
+func asStringSwitch(m map[string]int, scanBytes ...bool) stringSwitch {
+	hashFunc := stringHash
+	if len(scanBytes) > 0 && scanBytes[0] {
+		hashFunc = byteStringHash
+	}
 	size := uint32(8)
 	for int(size) < len(m) {
 		size *= 2
@@ -242,7 +248,7 @@ func asStringSwitch(m map[string]int) stringSwitch {
 	index := make(map[uint32]int)
 	ret := stringSwitch{Size: size}
 	for _, str := range list {
-		hash := stringHash(str)
+		hash := hashFunc(str)
 		rng := hash % size
 		i, ok := index[rng]
 		if !ok {
@@ -266,6 +272,14 @@ func stringHash(s string) uint32 {
 	var hash uint32
 	for _, r := range s {
 		hash = hash*uint32(31) + uint32(r)
+	}
+	return hash
+}
+
+func byteStringHash(s string) uint32 {
+	var hash uint32
+	for i := 0; i < len(s); i++ {
+		hash = hash*uint32(31) + uint32(s[i])
 	}
 	return hash
 }
